@@ -159,7 +159,7 @@ def impl_eval(case):
         why = f'{len(rows)} rows in, {len(got)} rows out'
     else:
         for i, (a, b) in enumerate(zip(rows, got)):
-            bad = [c for c in cols if a.get(c, '') != b.get(c, '')]
+            bad = [c for c in cols if a.get(c, '') != b.get(c, '') and not (case.get('supplied_only') and a.get(c, '') == '')]
             if bad:
                 why = f'row {i + 1}: column {bad[0]} was {a.get(bad[0], "")!r}, came back {b.get(bad[0])!r}'
                 break
@@ -239,6 +239,24 @@ def explore(run, tier):
             rows = [{'MTI': '1240', 'DE2': '5' * 16, 'PDS0023': v} for v in ('CAFÉ', 'Ölß Ü', 'naïve señor', 'plain')]
             cases.append({'rows': rows, 'cols': ['MTI', 'DE2', 'PDS0023'], 'codec': codec, 'b': b, 'cli': True,
                           'defaultenc': True})
+    # tables that have PDS columns AND a carrier column: each row uses one or the other (what a row supplies is decided
+    # row by row, not from the header)
+    if 'PDS0158' in cols and 'DE48' in cols:
+        for codec in ('latin_1', 'cp500'):
+            for b in (0, 1):
+                rows = []
+                for i in range(6):
+                    r = {'MTI': '1240', 'DE2': '5' * 16, 'PDS0158': '', 'PDS0023': '', 'DE48': ''}
+                    if i % 2:
+                        r['PDS0158'] = 'ROW%d VALUE' % i
+                        r['PDS0023'] = 'T%02d' % i
+                    else:
+                        r['DE48'] = iu.pds_text([(1, 'A%d' % i), (9998, 'DIRECT %d' % i)])
+                    rows.append(r)
+                # (a cell the row leaves empty may come back filled with what the other representation implies: the
+                # carrier of the row's PDS cells — only the supplied cells are compared)
+                cases.append({'rows': rows, 'cols': ['MTI', 'DE2', 'DE48', 'PDS0023', 'PDS0158'], 'codec': codec, 'b': b,
+                              'cli': b == 1, 'supplied_only': True})
     # the command entry points with --config-file (an element the packaged configuration lacks, first in the first
     # record), alone and together with a CARDUTIL_CONFIG directory holding another configuration
     for codec in ('latin_1', 'cp500'):
